@@ -377,6 +377,15 @@ Definition coin_total (d : text) (cs : coins) : N :=
 (* a program that starts (right after its marker) by asking for the balance of [a] in [d] *)
 Definition probe_of (p : prog) : option (text * text) :=
   match p with Prog _ (_ :: AQ (QBalance a d) :: _) _ => Some (a, d) | _ => None end.
+(* the failure handler of the FIRST sub-message of a program *)
+Definition first_sub_err (p : prog) : option prog :=
+  match p with Prog _ _ (OResp _ _ _ (SCons (Sub _ _ _ _ _ on_err) _)) => Some on_err | _ => None end.
+(* the amount shown to the program of node n by a balance query made right after its entry *)
+Definition first_amount (n : N) (tr : trace) : option N :=
+  match after_call n tr with
+  | RObs n' (VAmount (Some b)) :: _ => if n' =? n then Some b else None
+  | _ => None
+  end.
 Definition p_c05 (st : step) : option N :=
   let infos := flat_op (st_op st) in
   let tr := st_trace st in
@@ -426,6 +435,32 @@ Definition p_c05 (st : step) : option N :=
                        | _ => true end
                    | None => true end
                | _, _ => true end
+           | _ => true
+           end) tr);
+    (* 8: "attached funds ... are returned if the call fails": a failure handler (reply with Err) of the FIRST sub-message
+          of a program whose body starts by asking for its own balance, and which asks for the same balance itself, is
+          shown exactly the amount the body was shown: nothing moves funds between the body and its first dispatch, and
+          a failed sub-message gives everything back.  Skipped unless every shape condition and both observations are there *)
+    (8, forallb (fun en =>
+           match en with
+           | RCall n EReply c _ _ _ _ (Some (_, _, RRErr)) =>
+               match find_info n infos with
+               | Some pi =>
+                   match pi_disp pi with
+                   | Some d =>
+                       match find_info d infos with
+                       | Some pd =>
+                           match first_sub_err (pi_prog pd), probe_of (pi_prog pd) with
+                           | Some q, Some (a, den) =>
+                               negb ((prog_node q =? n) && teqb a c &&
+                                     match probe_of q with Some (a', den') => teqb a' a && teqb den' den | None => false end)
+                               || match first_amount d tr, first_amount n tr with
+                                  | Some b1, Some b2 => b1 =? b2
+                                  | _, _ => true end
+                           | _, _ => true end
+                       | None => true end
+                   | None => true end
+               | None => true end
            | _ => true
            end) tr)
   ].
